@@ -184,6 +184,8 @@ def run(ctx, prog):
         return None if is_sub(t, vf[0].ret) else 'result does not derive from the verification'
     A.require('verify_jws/nonce-kid-scope-key-of-this-document', okp, r_vj, replay=REPLAY)
     A.no_panic('verify_jws/no-panic', paths, replay=REPLAY)
+    import c07
+    c07.presentation_consistency(A, prog, {'scenario': 'presentation_validation', 'cex': {'only': '[consistency]'}})
 
 
 def strip_some(t):
@@ -197,6 +199,6 @@ def main(ctx):
     prog, info = load(CRATES, src_only=SRC)
     ctx.extra['mir'] = info
     ctx.bounds.append('all acyclic paths of JwtPresentationValidator::validate (closures inlined) and CoreDocument::verify_jws, callee results unconstrained')
-    ctx.outside += ['JSON parsing of claims', 'cryptographic verification', 'PresentationJwtClaims::check_consistency body (C07)',
+    ctx.outside += ['JSON parsing of claims', 'cryptographic verification', 
                     'CoreDocument::resolve_method / DIDUrlQuery::matches (C04)', 'credentials nested in the presentation']
     guarded(ctx, 'presentation validation audit', 'M', lambda: run(ctx, prog))
